@@ -131,11 +131,22 @@ func runTwoCalculators(c *Ctx, scenario int) {
 	exprs := []string{"Twice(21) + Max(1, 2)", "Min(4, 3) + Twice(1)", "Twice(2) * Twice(3)", "Sum(1, 2, 3) - Min(1, 2)"}
 	var note string
 	st := safeCallT(5*time.Second, func() string {
-		c1 := calculator.NewExpressionCalculator()
-		var others []*calculator.ExpressionCalculator
+		ev := func(cc *calculator.ExpressionCalculator, e string) string {
+			if err := cc.SetExpression(e); err != nil {
+				return "err " + errCode(err)
+			}
+			return outcome(cc.Evaluate())
+		}
+		// the reference: a calculator with the same function table, used before any other one is edited
 		alone := calculator.NewExpressionCalculator()
-		c1.DefaultFunctions().Add(mkFn("Twice", 2))
 		alone.DefaultFunctions().Add(mkFn("Twice", 2))
+		want := make([]string, len(exprs))
+		for i, e := range exprs {
+			want[i] = ev(alone, e)
+		}
+		c1 := calculator.NewExpressionCalculator()
+		c1.DefaultFunctions().Add(mkFn("Twice", 2))
+		var others []*calculator.ExpressionCalculator
 		for i := 0; i <= scenario%3; i++ {
 			o := calculator.NewExpressionCalculator()
 			switch (scenario + i) % 4 {
@@ -151,18 +162,12 @@ func runTwoCalculators(c *Ctx, scenario int) {
 			}
 			others = append(others, o)
 		}
-		for _, e := range exprs {
-			ev := func(cc *calculator.ExpressionCalculator) string {
-				if err := cc.SetExpression(e); err != nil {
-					return "err " + errCode(err)
-				}
-				return outcome(cc.Evaluate())
-			}
+		for i, e := range exprs {
 			for _, o := range others {
-				ev(o)
+				ev(o, e)
 			}
-			if g, w := ev(c1), ev(alone); g != w && note == "" {
-				note = fmt.Sprintf("%q: a calculator with the user function Twice gives %s while %d other calculator(s) with their own edited function tables are alive; a calculator with the same function table gives %s", e, g, len(others), w)
+			if g := ev(c1, e); g != want[i] && note == "" {
+				note = fmt.Sprintf("%q: a calculator with the user function Twice gives %s while %d other calculator(s) with their own edited function tables are alive; a calculator with the same function table, used before the others existed, gave %s", e, g, len(others), want[i])
 			}
 		}
 		return ""
